@@ -28,6 +28,11 @@ async fn mix(role: Role, seed: u64, rep: &mut Report) {
     let mut rng = Rng::new(seed);
     let mut script = Script::plain(role);
     script.pause = ms(1);
+    // server role: the session does not always sit on the first client stream (id 0): burnt
+    // request streams move it to 4, 8, 64, ... so that session id and quarter id differ
+    if role == Role::Server {
+        script.burn = [0usize, 1, 0, 2, 16, 0, 5][(seed % 7) as usize];
+    }
     let live = match scen::establish(role, &script, Duration::from_secs(6)).await {
         Ok(l) => l,
         Err(e) => {
@@ -71,7 +76,11 @@ async fn mix(role: Role, seed: u64, rep: &mut Report) {
     }
     // foreign ids: valid session ids (≡ 0 mod 4) other than the live one
     let mut foreign: Vec<u64> = vec![4, 8, 4 << 10, 4 << 28, rv::MAX - 3];
-    foreign.retain(|f| *f != sid);
+    // the ids an id-arithmetic slip would confuse with the live one
+    foreign.extend([0, sid.saturating_mul(4).min(rv::MAX - 3), sid / 4 & !3, sid + 4, sid.saturating_sub(4)]);
+    foreign.sort_unstable();
+    foreign.dedup();
+    foreign.retain(|f| *f != sid && *f % 4 == 0);
     for _ in 0..3 {
         let f = (rng.varint62() & !3).max(4);
         if f != sid {
@@ -133,7 +142,7 @@ async fn mix(role: Role, seed: u64, rep: &mut Report) {
             }
         }
     }
-    rep.eval(format!("{role:?}|{}", shape.iter().cloned().collect::<Vec<_>>().join("+")));
+    rep.eval(format!("{role:?}|sid={sid}|{}", shape.iter().cloned().collect::<Vec<_>>().join("+")));
     // live traffic must be delivered within the bound
     let t0 = Instant::now();
     loop {
